@@ -194,12 +194,13 @@ Section LprunFacts.
     - destruct (lprun_not_reaching fixed a st s Hr) as [_ [_ [_ [H _]]]]. now rewrite H.
   Qed.
 
-  Lemma builtins_leak a st (s : session) :
+  (* the machine WITHOUT the repair (fixed = false, the tree before 350dbfa) *)
+  Lemma builtins_leak_unrepaired a st (s : session) :
     b_profile s = None -> reaches a = true ->
-    b_profile (fst (lprun a st s)) = Some (next_id s).
+    b_profile (fst (lprun_gen false a st s)) = Some (next_id s).
   Proof.
-    intros Hb Hr. unfold Lprun.lprun.
-    destruct (lprun_reaching tree_deletes_inserted_profile a st s Hr) as [_ [H _]].
+    intros Hb Hr.
+    destruct (lprun_reaching false a st s Hr) as [_ [H _]].
     rewrite H, Hb. reflexivity.
   Qed.
 
@@ -241,20 +242,10 @@ Section LprunFacts.
     - now destruct (lprun_not_reaching fixed a st s Hr) as [_ [_ [_ [_ [_ [_ [_ [_ H]]]]]]]].
   Qed.
 
-  (* on the current tree: the first invocation that gets past option handling leaves
-     its profiler in builtins, and it stays there *)
-  Lemma seq_builtins_leak xs (s : session) :
-    b_profile s = None ->
-    b_profile (fst (run_seq tree_deletes_inserted_profile xs s)) = first_reaching xs (next_id s).
-  Proof.
-    revert s. induction xs as [|[a st] t IH]; intros s Hb; [exact Hb|].
-    rewrite run_seq_cons. cbn [first_reaching]. destruct (reaches a) eqn:Hr.
-    - apply seq_builtins_had. now apply builtins_leak.
-    - rewrite IH.
-      + now rewrite next_id_step.
-      + destruct (lprun_not_reaching tree_deletes_inserted_profile a st s Hr) as [_ [_ [_ [H _]]]].
-        now rewrite H.
-  Qed.
+  (* the current tree: builtins as found, over any sequence of invocations *)
+  Lemma seq_builtins_restored xs (s : session) :
+    b_profile (fst (run_seq tree_deletes_inserted_profile xs s)) = b_profile s.
+  Proof. exact (seq_builtins_fixed xs s). Qed.
 End LprunFacts.
 
 (* ---- packaged statements for Props/C20.v ----------------------------------------- *)
@@ -359,9 +350,13 @@ Section Packaged.
         as [_ [_ [_ [_ [_ [_ [_ [H _]]]]]]]].
   Qed.
 
-  Lemma builtins_restored_when_had xs (s : session) x :
-    b_profile s = Some x ->
-    b_profile (fst (run_seq tree_deletes_inserted_profile xs s)) = Some x.
+  Lemma builtins_restored xs (s : session) :
+    b_profile (fst (run_seq tree_deletes_inserted_profile xs s)) = b_profile s.
+  Proof. apply seq_builtins_restored. Qed.
+
+  (* a pre-existing builtin `profile` is put back by the repaired and by the unrepaired machine *)
+  Lemma builtins_restored_when_had fixed xs (s : session) x :
+    b_profile s = Some x -> b_profile (fst (run_seq fixed xs s)) = Some x.
   Proof. apply seq_builtins_had. Qed.
 
   Lemma errors_touch_nothing fixed a st (s : session) :
@@ -381,24 +376,19 @@ Definition w_sess : session unit unit := Sess None 100 [] [] [] [].
 Definition w_run := lprun unit (fun _ _ => tt) (fun t => t) unit (fun _ => tt)
                           (fun _ => Snap [] (FUnit 1 (1 # 1000000000))) w_args w_stmt w_sess.
 
-(* `%lprun -r -f f f(3)` in a session without a builtin `profile`: afterwards
-   builtins.profile exists and is the magic's profiler. *)
-Lemma builtins_leak_witness :
+(* `%lprun -r -f f f(3)` in a session without a builtin `profile`: afterwards there is
+   still none (current tree); the unrepaired machine left its profiler there - the
+   else-branch of the finally block is necessary. *)
+Definition w_run_unrepaired := lprun_gen unit (fun _ _ => tt) (fun t => t) unit (fun _ => tt)
+                          (fun _ => Snap [] (FUnit 1 (1 # 1000000000))) false w_args w_stmt w_sess.
+
+Lemma builtins_witness :
   b_profile w_sess = None
   /\ reaches w_args = true
-  /\ b_profile (fst w_run) = Some 100
-  /\ b_profile (fst w_run) <> b_profile w_sess
-  /\ r_kind (snd w_run) = KDone.
-Proof. vm_compute. repeat split; congruence. Qed.
-
-Lemma builtins_restored_refuted :
-  exists (a : args) (st : stmt) (s : session unit unit),
-    b_profile s = None
-    /\ b_profile (fst (lprun unit (fun _ _ => tt) (fun t => t) unit (fun _ => tt)
-                             (fun _ => Snap [] (FUnit 1 (1 # 1000000000))) a st s)) <> b_profile s.
-Proof.
-  exists w_args, w_stmt, w_sess. destruct builtins_leak_witness as [H1 [_ [_ [H4 _]]]]. split; assumption.
-Qed.
+  /\ r_kind (snd w_run) = KDone
+  /\ b_profile (fst w_run) = None
+  /\ b_profile (fst w_run_unrepaired) = Some 100.
+Proof. vm_compute. repeat split. Qed.
 
 (* non-vacuity of the positive statements: a concrete run with every option,
    a statement that raises SystemExit after calling a named and an unnamed function *)
